@@ -306,6 +306,13 @@ function buildUnionError(ctx: { path: string[] }, errors: DecodeError[], receive
     },
   ];
 }
+// appends one list of errors to another; `acc.push(...items)` passes every item as an argument and overflows the
+// stack for the error list of a very long input
+function pushAll(acc: DecodeError[], items: DecodeError[]): void {
+  for (let i = 0; i < items.length; i++) {
+    acc.push(items[i]);
+  }
+}
 function buildError(ctx: { path: string[] }, message: string, received: unknown): RegularDecodeError[] {
   return [
     {
@@ -1342,7 +1349,7 @@ export class TupleRuntype extends BaseRuntype {
       if (!ok) {
         pushPath(ctx, `[${idx}]`);
         const errors = prefixItem.reportDecodeError(ctx, input[idx]);
-        acc.push(...errors);
+        pushAll(acc, errors);
         popPath(ctx);
       }
       idx++;
@@ -1354,7 +1361,7 @@ export class TupleRuntype extends BaseRuntype {
         if (!ok) {
           pushPath(ctx, `[${i}]`);
           const errors = this.rest.reportDecodeError(ctx, input[i]);
-          acc.push(...errors);
+          pushAll(acc, errors);
           popPath(ctx);
         }
       }
@@ -1362,7 +1369,7 @@ export class TupleRuntype extends BaseRuntype {
       // validate() rejects surplus items of a tuple without rest element: say so
       for (let i = idx; i < input.length; i++) {
         pushPath(ctx, `[${i}]`);
-        acc.push(...buildError(ctx, "expected no more items in tuple", input[i]));
+        pushAll(acc, buildError(ctx, "expected no more items in tuple", input[i]));
         popPath(ctx);
       }
     }
@@ -1444,7 +1451,7 @@ export class AllOfRuntype extends BaseRuntype {
     const acc = [];
     for (const v of this.schemas) {
       const errors = v.reportDecodeError(ctx, input);
-      acc.push(...errors);
+      pushAll(acc, errors);
     }
     return acc;
   }
@@ -1646,7 +1653,7 @@ export class ArrayRuntype extends BaseRuntype {
         pushPath(ctx, `[${i}]`);
         const v = input[i];
         const arr2 = this.itemParser.reportDecodeError(ctx, v);
-        acc.push(...arr2);
+        pushAll(acc, arr2);
         popPath(ctx);
       }
     }
@@ -2310,7 +2317,7 @@ export class ObjectRuntype extends BaseRuntype {
       if (!ok) {
         pushPath(ctx, k);
         const arr2 = this.properties[k].reportDecodeError(ctx, v);
-        acc.push(...arr2);
+        pushAll(acc, arr2);
         popPath(ctx);
       }
     }
@@ -2327,11 +2334,11 @@ export class ObjectRuntype extends BaseRuntype {
             pushPath(ctx, k);
             if (!keyOk) {
               const keyReported = p.key.reportDecodeError(ctx, k);
-              acc.push(...keyReported);
+              pushAll(acc, keyReported);
             }
             if (!valueOk) {
               const valueReported = p.value.reportDecodeError(ctx, input[k]);
-              acc.push(...valueReported);
+              pushAll(acc, valueReported);
             }
             popPath(ctx);
           }
